@@ -87,7 +87,7 @@ def check_encoding(repo: Repo, rep: Report) -> None:
                 inst.w.call("active_vertices_connected", inst.s, act, g, acyclic=acyclic)
                 refs, cons = ref_vertices_connected(n, edges, acyclic)
                 same, diff = compare(inst, refs, cons)
-                if n <= 4:
+                if n <= 5:
                     xitems.append((f"graph '{gname}' {edges}, acyclic={acyclic}", inst, [a for a in inst.arrays if a["user"]][0]["ids"],
                                    (lambda n=n, edges=edges, acyclic=acyclic: connected_sets(n, edges, acyclic))))
                 if same:
